@@ -163,7 +163,7 @@ PROPS["C12"] = dict(level="proof",
 
 FRAME = dict(script="contracts/frame_static.py", id="frame_static", modules=[], target="frame_static")
 PROPS["C09"] = dict(level="proof",
-    units=[dict(FRAME, ignore=["*template_covers_saved"])] + CAD,
+    units=[dict(FRAME, ignore=["*template_covers_saved"])] + CAD,          # C09's share is ...template_covers_carried_state (same script)
     bounded=[dict(name="c09_runtime", script="harness_ckpt.py", args=["--prop", "c09"], wall_s=600)],
     assumptions=CKPT_ASSUME + ["resume equivalence is derived, not stated as one obligation: solve() is a deterministic function of the carried state (frame obligations: everything it reads is either carried or fixed by construction from the configuration), the carried state is saved at a save site whose label is the iteration and whose state object is the current one (cadence.* obligations), every saved field is assigned back to its own attribute, and the configuration round trip is assumed; composition over several interruptions follows by induction on the number of interruptions (C08 composability)"])
 PROPS["C10"] = dict(level="proof",
@@ -270,7 +270,11 @@ _extend("C14", PCTOR + MJE); _extend("C15", PCTOR); _extend("C20", PCTOR); _exte
 
 # every property is quantified over problems / instances / call histories: none may depend on hidden module-level state
 GLOBALS = dict(script="contracts/global_state.py", id="global_state", modules=[], target="global_state")
-for _p in list(PROPS): PROPS[_p]["units"] = PROPS[_p]["units"] + [GLOBALS]
+# contracts on base-class methods are applied at every self.method(...) call: an override of a contracted method must itself be a unit (else NEEDS-CONTRACT -> bounded fallback)
+OVERRIDES = dict(script="contracts/override_audit.py", id="override_audit", modules=[], target="override_audit")
+SA_INIT = U(SAM, f"{SA}._initialize_solver_state_elements")
+for _p in ("C03", "C06", "C08", "C09", "C20"): PROPS[_p]["units"] = PROPS[_p]["units"] + [SA_INIT]
+for _p in list(PROPS): PROPS[_p]["units"] = PROPS[_p]["units"] + [GLOBALS, OVERRIDES]
 _extend("C13", MJE + HXT + [PCTOR[2]] + [U(PRB, f"{HX}.random_event_probability", timeout_ms=30000)] + [U(PRB, f"{HX}.{m}") for m in ("_get_probs_ia_lt_stock_a_ib_lt_stock_b", "_get_probs_ia_eq_stock_a_ib_lt_stock_b", "_get_probs_ia_lt_stock_a_ib_eq_stock_b", "_get_probs_ia_eq_stock_a_ib_eq_stock_b")])
 
 for _p in ("C13", "C14", "C16"):
